@@ -18,12 +18,14 @@ MEM_KB = int(os.environ.get("VERIF_MEM_GB", "24")) * 1024 * 1024
 JOBS = int(os.environ.get("VERIF_JOBS", "0")) or min(16, os.cpu_count() or 4)
 
 
-def _env():
+def _env(engine=None):
     e = dict(os.environ)
     e.update(KANI_ENV)
     # never inherit a cargo target dir or RUSTFLAGS from the caller
-    for k in ("CARGO_TARGET_DIR", "RUSTFLAGS", "CARGO_BUILD_TARGET_DIR"):
+    for k in ("CARGO_TARGET_DIR", "RUSTFLAGS", "CARGO_BUILD_TARGET_DIR", "CARGO_ENCODED_RUSTFLAGS"):
         e.pop(k, None)
+    if engine in weave.RUSTFLAGS:
+        e["RUSTFLAGS"] = weave.RUSTFLAGS[engine]
     return e
 
 
@@ -65,7 +67,7 @@ def run_kani(engine, tag, tier, hs, log_path, overall_timeout):
         lf.write("$ " + shell + "\n")
         lf.flush()
         try:
-            p = subprocess.run(["bash", "-c", shell], cwd=src, env=_env(), stdout=lf, stderr=subprocess.STDOUT,
+            p = subprocess.run(["bash", "-c", shell], cwd=src, env=_env(engine), stdout=lf, stderr=subprocess.STDOUT,
                                timeout=overall_timeout)
             rc = p.returncode
         except subprocess.TimeoutExpired:
@@ -206,7 +208,7 @@ def playback(engine, tag, tier, h, replay_dir):
            "--harness-timeout", f"{max(h.timeout, 1800)}s", "--target-dir", target]
     shell = f"ulimit -v {MEM_KB}; exec " + " ".join(_q(c) for c in cmd)
     with open(log, "w") as lf:
-        subprocess.run(["bash", "-c", shell], cwd=src, env=_env(), stdout=lf, stderr=subprocess.STDOUT)
+        subprocess.run(["bash", "-c", shell], cwd=src, env=_env(engine), stdout=lf, stderr=subprocess.STDOUT)
     with open(log) as lf:
         out = lf.read()
     tests = re.findall(r"```\n?(?:rust)?\n(.*?)```", out, re.S)
@@ -233,7 +235,7 @@ def run_playback(engine, tag, tier, module, path):
     if not names:
         return None, "no playback test in " + path
     # the host file in the scratch tree points at /verif/harness/...; repoint to a scratch copy + tests
-    hfile = os.path.join(VERIF, "harness", engine, module + ".rs")
+    hfile = weave.harness_file(engine, module)
     scratch = os.path.join(weave.workdir(engine, tag), f"replay_{module}.rs")
     with open(hfile) as f:
         base = f.read()
@@ -255,7 +257,7 @@ def run_playback(engine, tag, tier, module, path):
         cmd += ["--", "kani_concrete_playback_"]
         log = os.path.join(weave.workdir(engine, tag), f"playback-run-{module}-{profile}.log")
         with open(log, "w") as lf:
-            p = subprocess.run(cmd, cwd=src, env=_env(), stdout=lf, stderr=subprocess.STDOUT)
+            p = subprocess.run(cmd, cwd=src, env=_env(engine), stdout=lf, stderr=subprocess.STDOUT)
         with open(log) as lf:
             out = lf.read()
         m = re.search(r"test result: (\w+)\. (\d+) passed; (\d+) failed", out)
